@@ -157,6 +157,16 @@ func c04Recovery(p *Prog, r *Report, rule string) {
 		}
 	}
 	if delObj == nil {
+		// a list kept in a field of a local accumulator (returned as loaded.stale) is a list the rule does not
+		// follow; a success return of nil / a literal certainly hands nothing to the cleaner
+		for _, id := range f.successReturns(fi) {
+			if rs := f.returnStmt(id); rs != nil && len(rs.Results) == 2 {
+				if _, isSel := ast.Unparen(rs.Results[0]).(*ast.SelectorExpr); isSel {
+					r.Undecided(rule, kCoreLoad+"#returns-delete-list", p.pos(rs), "Load returns a field of a local value as its delete list: the recovery rule is applied in a form this check does not follow")
+					return
+				}
+			}
+		}
 		r.Viol(rule, kCoreLoad+"#returns-delete-list", p.pos(fi.Decl), "Load does not return a delete list variable on success")
 		return
 	}
